@@ -331,6 +331,18 @@ impl Collector {
 }
 
 
+/// Access to the private path function for verification.
+#[cfg(routinator_verif)]
+impl Collector {
+    /// Returns the path of the archive file used for `rpki_notify`.
+    pub fn verif_repository_path(
+        &self, rpki_notify: &uri::Https
+    ) -> Option<PathBuf> {
+        self.repository_path(rpki_notify).ok()
+    }
+}
+
+
 //------------ Run -----------------------------------------------------------
 
 /// Using the collector for a single validation run.
